@@ -91,3 +91,5 @@ package jrpc2
 // transaction lists are only touched under the block's own lock.
 //@ guarded eth.Block.Txs by Mutex props=C18
 //@ held eth.(*Block).Tx b props=C18
+// the request counter of a shared client is only touched through sync/atomic
+//@ guarded Client.reqCounter by atomic props=C18
